@@ -429,6 +429,20 @@ def dump_tree(expr):
     return {"top": [path(p) for p in expr.seq.paths], "m": bool(expr.importURI), "p": bool(expr.use_proxy)}
 
 
+class HeapMismatch(Exception):
+    pass
+
+
+def check_heap(case, model, mm, others):
+    want = model_heap(case["heap"], case.get("extra"))
+    want.pop("extra_roots")
+    got = real_heap(model, mm, others)
+    if want != got:
+        for k in want:
+            if want[k] != got[k]:
+                raise HeapMismatch(f"{k}: described {want[k]} loaded {got[k]}")
+
+
 def run_case(case):
     use_repo()
     from textx.exceptions import TextXError, TextXSemanticError
@@ -463,6 +477,7 @@ def run_case(case):
                 mm = metamodel("Item", "a", split, builtin=repo)
             model = mm.model_from_str(text)
             objs = model_objects(model)
+            check_heap(case, model, mm, others)
             tree = R.parse(etext)
             out["tree"] = dump_tree(tree)
             name = case["name"] if case.get("as_list") is None else list(case["as_list"])
@@ -506,6 +521,7 @@ def run_case(case):
                     return out
                 raise
             objs = model_objects(model)
+            check_heap(case, model, mm, others)
             ref = objs[case["from"]].ref
             if isinstance(ref, R.ReferenceProxy):
                 out.update(found(ref._tx_obj, ref._tx_path, model))
@@ -620,10 +636,24 @@ def gen_focus_seq(rng):
         return [{"k": "nav", "mode": rng.weighted(modes), "name": rng.weighted([("a", 6), ("b", 3), ("r", 2), ("rs", 2), ("s", 1)])}
                 for _ in range(k)]
 
-    kind = rng.weighted([("star-nav", 5), ("star-br", 3), ("caret", 3), ("nested", 2)])
+    gen_focus_seq.dist = None
+    kind = rng.weighted([("star-nav", 5), ("star-br", 3), ("caret", 3), ("nested", 2), ("br-alt", 7)])
     tail = navs(rng.randint(1, 2), [("c", 8), ("t", 2)])
-    if kind == "star-nav":
-        head = [{"k": "star", "e": navs(1, [("t", 6), ("c", 4)])[0]}]
+    if kind == "br-alt":
+        # nested alternatives that can both match: their order decides the result
+        attrs = rng.sample(["a", "b", "s", "r", "rs"], rng.randint(2, 3))
+        amode = rng.weighted([("c", 7), ("t", 3)])
+        alts = [{"lead": rng.weighted([(None, 8), (2, 1), (1, 1)]),
+                 "elems": [{"k": "nav", "mode": amode, "name": a}]} for a in attrs]
+        head = [{"k": "br", "seq": alts}]
+        if rng.chance(0.5) and amode == "c":
+            tail = []
+        lead = rng.weighted([(None, 7), ("^", 3)])
+        if lead is None:
+            # the same alternatives written out, for choosing a name several of them match
+            gen_focus_seq.dist = [{"lead": a["lead"], "elems": a["elems"] + tail} for a in alts]
+    elif kind == "star-nav":
+        head = [{"k": "star", "e": navs(1, [("t", 7), ("c", 3)])[0]}]
         lead = None
     elif kind == "star-br":
         alts = [{"lead": rng.weighted([(None, 6), (2, 3)]), "elems": navs(rng.randint(1, 2), [("t", 6), ("c", 4)])}
@@ -660,8 +690,11 @@ def gen_case(rng, mode=None, focus=None):
     split = rng.weighted([(".", 6), ("/", 2), ("::", 2)])
     n0 = len(heap_list(root))
     at = rng.below(n0)
-    if focus and n0 > 1:  # start inside the tree rather than at the root
+    if focus and n0 > 1:  # start inside the tree rather than at the root, at an object with children
         at = 1 + rng.below(n0 - 1)
+        inner = [i for i, (n, _) in enumerate(heap_list(root)) if i > 0 and (n.get("a") or n.get("b"))]
+        if inner and rng.chance(0.8):
+            at = rng.choice(inner)
     if mode == "find":
         add_refs(rng, root)
         frm = at
@@ -684,6 +717,8 @@ def gen_case(rng, mode=None, focus=None):
     for attempt in range(6):
         seq = gen_focus_seq(rng) if focus else gen_seq(rng)
         cls = rng.weighted([(None, 3), ("Item", 4), ("Named", 2), ("A", 3), ("B", 2), ("C", 1)])
+        if focus:
+            cls = rng.weighted([(None, 4), ("Item", 4), ("Named", 2), ("A", 1), ("B", 1)])
         if mode != "find" and cls is None:
             cls = "Item"
         ns = rng.choice(names)
@@ -697,6 +732,18 @@ def gen_case(rng, mode=None, focus=None):
             deep = [c for c in good if Spec(root, c, extra=extra, m=mflag).targets(seq, frm, cls) & below]
             if deep and rng.chance(0.7):
                 good = deep
+        dist = gen_focus_seq.dist if focus else None
+        if good and dist:
+            # nested alternatives: prefer names that at least two of them match
+            both = [c for c in good
+                    if sum(1 for q in dist if Spec(root, c, extra=extra, m=mflag).targets([q], frm, cls)) > 1]
+            if both:
+                good = both
+        if good and rng.chance(0.6):
+            # prefer names with several matching objects: then the search order decides
+            multi = [c for c in good if len(Spec(root, c, extra=extra, m=mflag).targets(seq, frm, cls)) > 1]
+            if multi:
+                good = multi
         if good:
             # prefer long names
             good.sort(key=lambda c: -len(c))
@@ -705,6 +752,8 @@ def gen_case(rng, mode=None, focus=None):
     text = split.join(ns)
     if rng.chance(0.1):  # empty parts are dropped
         text = split + text.replace(split, split + split, 1)
+    if mode == "find" and rng.chance(0.03):  # degenerate names: no part at all
+        text = rng.choice(["", split, split + split])
     case = {"mode": mode, "heap": root, "expr": {"flags": flags, "seq": seq}, "from": frm,
             "name": text, "split": split, "cls": cls}
     if extra:
@@ -824,8 +873,8 @@ def shrink_heap(case):
                 if any(c is n for c in pn.get(k) or []):
                     pn[k] = [c for c in pn[k] if c is not n]
         c = _renumber(case, root, None)
-        if c is not None:
-            yield c
+        if c is not None and (root.get("a") or root.get("b") or root.get("s") is not None or root.get("refs")):
+            yield c  # (an empty model text is not a model object at all)
     for i in range(count):
         root = _clone(case["heap"])
         n = heap_list(root)[i][0]
@@ -911,13 +960,13 @@ def model_heap(tree, extra=()):
     }
 
 
-def real_heap(model, mm):
+def real_heap(model, mm, others=()):
     """the same view taken from the loaded objects (consistency of the harness's
     own heap description with what textX built)"""
     use_repo()
     from textx import textx_isinstance
 
-    objs = model_objects(model)
+    objs = model_objects(model) + [o for m in others for o in model_objects(m)]
     num = {id(o): i for i, o in enumerate(objs)}
 
     def lst(v):
@@ -957,7 +1006,7 @@ class Prop(Check):
         "Rrel.C11_split",
     ]
     DRIVER = "Drivers/Rrel.lean"
-    QUICK_CASES = 400
+    QUICK_CASES = 500
     THOROUGH_CASES = 20000
     PROCS_THOROUGH = 4
     RULE = ("generated RREL expressions (navigation, '~', fixed-name '~', '.', '..', '^', parent(T), '*', brackets, ',', "
